@@ -2,6 +2,7 @@ CONSTANTS
   FW = {1, 2, 3, 4, 5}
   Rec = {1, 2, 3, 4}
   Thread = {1, 2, 3}
+  Orig = {1, 2}
   Deviations = {}
 SPECIFICATION Spec
 VIEW View
